@@ -70,6 +70,17 @@ func (p *liveReader) OnEnd(s sdktrace.ReadOnlySpan) {
 func (p *liveReader) Shutdown(context.Context) error   { return nil }
 func (p *liveReader) ForceFlush(context.Context) error { return nil }
 
+// dropByName drops spans whose name starts with "dropchild-" and samples everything else.
+type dropByName struct{}
+
+func (dropByName) ShouldSample(p sdktrace.SamplingParameters) sdktrace.SamplingResult {
+	if strings.HasPrefix(p.Name, "dropchild-") {
+		return sdktrace.SamplingResult{Decision: sdktrace.Drop}
+	}
+	return sdktrace.SamplingResult{Decision: sdktrace.RecordAndSample}
+}
+func (dropByName) Description() string { return "dropByName" }
+
 var deadlocksSeen atomic.Int32
 
 func snapshotString(s sdktrace.ReadOnlySpan) string {
@@ -131,7 +142,7 @@ func runCase(k *vf.Case, traced bool) {
 	var churnMu sync.Mutex
 	var churners []*recProc
 	p4 := &liveReader{}
-	tp := sdktrace.NewTracerProvider(sdktrace.WithRawSpanLimits(lim), sdktrace.WithSampler(sdktrace.AlwaysSample()), sdktrace.WithSpanProcessor(p1), sdktrace.WithSpanProcessor(p2), sdktrace.WithSpanProcessor(p4))
+	tp := sdktrace.NewTracerProvider(sdktrace.WithRawSpanLimits(lim), sdktrace.WithSampler(dropByName{}), sdktrace.WithSpanProcessor(p1), sdktrace.WithSpanProcessor(p2), sdktrace.WithSpanProcessor(p4))
 	tr := tp.Tracer("c10")
 	nShared := 1 + r.Intn(2)
 	var spans []shared
@@ -155,6 +166,7 @@ func runCase(k *vf.Case, traced bool) {
 			gr := vf.NewRNG(seed)
 			var local []opRec
 			var localChildren []trace.SpanID
+			attrBuf := make([]attribute.KeyValue, 3)
 			defer func() {
 				if rec := recover(); rec != nil {
 					buf := make([]byte, 4096)
@@ -200,7 +212,14 @@ func runCase(k *vf.Case, traced bool) {
 					}
 					ended[pl.si] = true
 				case "SetAttributes":
-					s.span.SetAttributes(attribute.String(tag+"-a", tag), attribute.String(tag+"-b", tag), attribute.String(tag+"-c", tag))
+					if gr.Bool() {
+						// the caller's own buffer (len == cap), refilled for every call: the span must not keep it
+						attrBuf[0], attrBuf[1], attrBuf[2] = attribute.String(tag+"-a", tag), attribute.String(tag+"-b", tag), attribute.String(tag+"-c", tag)
+						s.span.SetAttributes(attrBuf...)
+						attrBuf[0], attrBuf[1], attrBuf[2] = attribute.String("scribble-1", "x"), attribute.String("scribble-2", "x"), attribute.String("scribble-3", "x")
+					} else {
+						s.span.SetAttributes(attribute.String(tag+"-a", tag), attribute.String(tag+"-b", tag), attribute.String(tag+"-c", tag))
+					}
 				case "AddEvent":
 					s.span.AddEvent(tag, trace.WithAttributes(attribute.String("a", tag), attribute.String("b", tag), attribute.String("c", tag)))
 				case "AddLink":
@@ -218,6 +237,13 @@ func runCase(k *vf.Case, traced bool) {
 						op.kind = "IsRecording-true-after-own-End"
 					}
 				case "Child":
+					if gr.Chance(1, 3) {
+						// a child the sampler drops is a child all the same (it is counted, not delivered)
+						_, ch := tr.Start(s.ctx, "dropchild-"+tag)
+						op.ret = vf.Tick()
+						ch.End()
+						break
+					}
 					_, ch := tr.Start(s.ctx, "child-"+tag)
 					op.ret = vf.Tick()
 					ch.End()
@@ -383,6 +409,9 @@ func runCase(k *vf.Case, traced bool) {
 			if key == "post" {
 				fail("post-end-mutation-visible", "", "")
 			}
+			if strings.HasPrefix(key, "scribble") {
+				fail("span-kept-the-callers-slice", "", "the snapshot holds "+key+", which the caller wrote into its own buffer after SetAttributes had returned")
+			}
 		}
 		for gname, n := range groups {
 			if n != 3 {
@@ -437,6 +466,19 @@ func runCase(k *vf.Case, traced bool) {
 			if n != 1 {
 				fail("onend-count", "child span", fmt.Sprintf("processor %s saw %d OnEnd calls for a child span", p.name, n))
 			}
+		}
+	}
+	// a span that is still open when its provider is shut down: End still ends it
+	{
+		tp2 := sdktrace.NewTracerProvider(sdktrace.WithSpanProcessor(&recProc{name: "late", got: map[trace.SpanID][]delivered{}}))
+		_, open := tp2.Tracer("late").Start(context.Background(), "open-at-shutdown")
+		tp2.Shutdown(context.Background())
+		open.End()
+		if open.IsRecording() {
+			fail("recording-after-end", "span ended after its provider was shut down", "")
+		}
+		if ro, ok := open.(sdktrace.ReadOnlySpan); ok && ro.EndTime().IsZero() {
+			fail("recording-after-end", "span ended after its provider was shut down: no end time", "")
 		}
 	}
 	k.C.Count(mode+"_cases", 1)
